@@ -117,14 +117,14 @@ impl ValueVector {
 
     /// Sets the value at index to null.
     pub fn set_null(&mut self, index: usize) {
-        if self.validity.is_none() {
-            self.validity = Some(vec![true; self.len]);
+        let len = self.len;
+        let validity = self.validity.get_or_insert_with(|| vec![true; len]);
+        // The mask is created at the first null; values pushed since then are not
+        // covered yet, so grow it before clearing the bit.
+        if validity.len() <= index {
+            validity.resize(index + 1, true);
         }
-        if let Some(validity) = &mut self.validity
-            && index < validity.len()
-        {
-            validity[index] = false;
-        }
+        validity[index] = false;
     }
 
     /// Pushes a boolean value.
